@@ -298,15 +298,10 @@ func init() {
 					obs = append(obs, mkOb(c, "TRO.debugger-gate", s.Unit, "call TerminalFID", s.Call, Undecided, "not locatable", false))
 					continue
 				}
-				gated := false
-				for _, b := range fc.G.Blocks {
-					cond := fc.CondOf(b)
-					if cond == nil || !fc.Live(b) {
-						continue
-					}
-					be, isBin := ast.Unparen(cond).(*ast.BinaryExpr)
+				nilDbg := fc.edgesImplying(func(a LitAtom) bool {
+					be, isBin := ast.Unparen(a.E).(*ast.BinaryExpr)
 					if !isBin || (be.Op != token.EQL && be.Op != token.NEQ) {
-						continue
+						return false
 					}
 					var side ast.Expr
 					if isNilIdent(info, be.Y) {
@@ -315,16 +310,11 @@ func init() {
 						side = be.Y
 					}
 					if side == nil || FieldOfSelector(info, side) != dbg {
-						continue
+						return false
 					}
-					edge := 0
-					if be.Op == token.NEQ {
-						edge = 1
-					}
-					if fc.edgeDominates(b, edge, loc.B) {
-						gated = true
-					}
-				}
+					return (be.Op == token.EQL) == a.Positive
+				})
+				gated := len(nilDbg) > 0 && !fc.reachableAvoiding(loc.B, nilDbg)
 				if gated {
 					obs = append(obs, mkOb(c, "TRO.debugger-gate", s.Unit, "call TerminalFID", s.Call, Proved, "reachable only through the `Debugger == nil` edge", true))
 				} else {
